@@ -12,7 +12,7 @@ package pathpattern
 //@ spec accepts(n *Node, r string) bool
 //@ spec wfTree(n *Node) bool
 //@ spec segEnd(r string) int := indexOf(r, "/") < 0 ? len(r) : indexOf(r, "/")
-//@ spec suffixAccepts(n *Node, k int, r string) bool :=
+//@ spec suffixAccepts(n *Node, k int, r string) bool opaque :=
 //@     n.Suffixes[k].Kind == SuffixKindConstant ? ((hasPrefix(r, n.Suffixes[k].Pattern) && accepts(n.Suffixes[k].Node, substr(r, len(n.Suffixes[k].Pattern), len(r) - len(n.Suffixes[k].Pattern)))) || (!hasPrefix(r, n.Suffixes[k].Pattern) && r == "" && n.Suffixes[k].Pattern == "/" && accepts(n.Suffixes[k].Node, r)))
 //@   : n.Suffixes[k].Kind == SuffixKindVariable ? accepts(n.Suffixes[k].Node, substr(r, segEnd(r), len(r) - segEnd(r)))
 //@   : n.Suffixes[k].Kind == SuffixKindEverything ? n.Suffixes[k].Node.Value != nil
@@ -24,9 +24,10 @@ package pathpattern
 //@ spec wfHere(n *Node) bool := forall k int :: 0 <= k && k < len(n.Suffixes) ==> n.Suffixes[k].Node != nil && wfTree(n.Suffixes[k].Node) && (n.Suffixes[k].Kind == SuffixKindRegExp ==> n.Suffixes[k].regExp != nil)
 // Claimed today: no panic in the recursive matcher on a well-formed tree (C10). The functional clause
 // (the matcher finds a node exactly for the accepted texts - which is what makes backtracking over
-// constant suffixes necessary) is written below but NOT claimed: its loop invariant and the two
-// verdict clauses are not decided by the solvers (the instantiation of the unfolded definition at the
-// loop index is not found), so they carry the tag C09-attempted.
+// constant suffixes necessary) is written below but NOT claimed: its loop invariant and one of the
+// verdict clauses are not decided by the solvers even with 60 s per obligation (the unfolded definition
+// of suffixAccepts at the loop index, with its string operations, is beyond them), so they carry the tag
+// C09-attempted.
 //@ func (*Node).matchRemaining
 //@   requires currentNode != nil && wfTree(currentNode)
 //@   assuming accepts(currentNode, remaining) ==> acceptsHere(currentNode, remaining)
